@@ -50,8 +50,8 @@ CLAIMS = {
          'Trusted: printer, CBMC, clock / time-zone / TimerEvent / callback stubs. / and % by 86400 over 32 bits are out of solver reach, hence the bounded domain for the calendar arithmetic (periodicity beyond the window is an unchecked argument). CronAlarm / ccronexpr not covered.',
          'CBMC function contracts (unbounded) + bounded-domain contracts for the calendar arithmetic', '6 C20'),
  'C12': ('other',
-         'HTTP RequestParser::parse under an unbounded CBMC contract with size-only strings: for every input and carried-over state no exception, no index outside the buffer, consumed <= given, valid state, termination of both loops, and a start line is only rejected once its CRLF was seen.',
-         'Trusted: printer, CBMC, size-only std::string model (find/substr/operator[] bounds), conversion stubs. Request content, whole-stream segmentation independence and the server pipeline (server_imp.cpp) are not decided.',
+         'HTTP RequestParser::parse under an unbounded CBMC contract with size-only strings: for every input and carried-over state no exception, no index outside the buffer, consumed <= given, valid state, termination of both loops, and a start line is only rejected once its CRLF was seen. Server::Impl::commitRespond: responses are written in request order, once each, parked when out of turn, and nothing is written after the response to the closing request.',
+         'Trusted: printer, CBMC, size-only std::string model (find/substr/operator[] bounds), conversion stubs. Request content, whole-stream segmentation independence and the rest of the server pipeline (onTcpReceived, connection close) are not decided.',
          'CBMC function/loop contracts on mechanically extracted C', '6 C12'),
  'C13': ('other',
          'KeyEventScanner::next total over all bytes x states (loop-free, full domain). Line-editor key handlers and history under unbounded CBMC contracts on an abstract string model (exact lengths, abstract contents): session invariant (history <= 20, history index and cursor in range), no std:: exception escapes, no container indexed out of range, (cursor, length, history index) evolve as in the reference editor; history commands !n / !-n / !! for every stoi result or exception and every history length.',
